@@ -45,7 +45,21 @@ def kas(sim, cid, since_t=None):
     return out
 
 
+def operator_send(sim, kind, i):
+    """arrival kinds ending in '+S': at the same instant the operator has the agent send an UPDATE through the REST API
+    (what the agent sends must not disturb its own keepalive schedule)"""
+    if kind.endswith('+S'):
+        sim.rest('POST', '/v1/peer/10.0.0.2/send/update',
+                 json_body={'attr': {'1': 0, '2': [[2, [65001]]], '3': '10.0.0.1'}, 'nlri': ['10.%d.%d.0/24' % (i % 250, i % 7)]})
+        sim.reactor.settle(fire_due=False)
+
+
 def arrival_msg(kind, i):
+    kind = kind[:-2] if kind.endswith('+S') else kind
+    return _arrival_msg(kind, i)
+
+
+def _arrival_msg(kind, i):
     """'K' KEEPALIVE, 'U' the small marked IPv4 UPDATE, 'U:<k>' well-formed UPDATE body k of vlib.corpus"""
     if kind == 'K':
         return rc.keepalive()
@@ -125,6 +139,7 @@ def run_case(case):
             for i, (cls, kind, order) in enumerate(case['schedule'][:6]):
                 r.advance(240.0 * (i + 1))
                 r.settle(fire_due=True)
+                operator_send(sim, kind, i)
                 r.peer_send(c, arrival_msg(kind, i))
                 r.settle(fire_due=True)
             r.advance(10 * 240.0)
@@ -146,6 +161,7 @@ def run_case(case):
                     out.append(('early-end:%s:gap=%s' % (sim.state, cls),
                                 'session left ESTABLISHED at t=%s before arrival %d (last arrival %s, H=%s)' % (r.now, i, last, H)))
                     return out + audit(sim, c, H, t_oc, r.now, None)
+                operator_send(sim, kind, i)
                 delivered = r.peer_send(c, arrival_msg(kind, i))
                 r.settle(fire_due=True)
                 if not delivered or sim.state != 'ESTABLISHED':
@@ -212,7 +228,7 @@ def audit(sim, c, H, t_oc, end, dead_at):
 GAPS = ['H-e', 'H', 'H+e', 'H/3-e', 'H/3', 'H/3+e', '0', 'small', '2H/3', 'H/2']
 NBODIES = len(corpus.update_bodies())
 arrival = st.tuples(st.sampled_from(GAPS + ['H-e', 'H', '2H/3', 'H/2']),
-                    st.one_of(st.sampled_from(['K', 'U', 'UM']), st.integers(0, NBODIES - 1).map(lambda k: 'U:%d' % k)),
+                    st.one_of(st.sampled_from(['K', 'U', 'UM', 'K+S', 'U+S']), st.integers(0, NBODIES - 1).map(lambda k: 'U:%d' % k)),
                     st.sampled_from(['msg', 'timer'])).map(list)
 case_strategy = st.fixed_dictionaries({
     'conf': st.sampled_from(HOLDS), 'prop': st.sampled_from(HOLDS), 'conf_ka': st.sampled_from([60, 60, 1, 7, 600]),
@@ -241,6 +257,7 @@ def run_shard(spec, seed, col, tier):
     if spec['kind'] == 'grid':
         # every config pair x every phase x a few canonical schedules incl. both tie orders
         scheds = [[], [['H', 'K', 'msg']], [['H', 'K', 'timer']], [['H-e', 'U', 'msg']] * 3, [['H/3', 'K', 'timer']] * 4,
+                  [['H/2', 'K+S', 'msg']] * 3, [['small', 'K+S', 'msg']] * 6 + [['H/2', 'U+S', 'msg']],
                   [['H+e', 'K', 'msg']], [['0', 'U', 'msg']] * 5 + [['H', 'U', 'msg']]]
         for conf in HOLDS:
             for prop in HOLDS:
